@@ -23,6 +23,21 @@ Tie: translator (T) + correspondence (C).
   `.panel()`, the user rebinding or editing `database.data`, `add_column`, `remove`, `scale_column`)
   after which NaN / non-numeric / empty data enters; the data must be refused where it is supplied
   again (`BIOGEME(...)`, `BIOGEME(dict)`, `Database(...)`); model `Audit.dataAuditNew / dataAuditBio`.
+* rows stream (round 3): every data-dependent fault in every ROW position (first / middle / last / only row / several) and
+  frame size 1, 2, 5: a choice that is no alternative, for logits built by `models.loglogit / logit / lognested` WITHOUT
+  availability conditions, with constant ones, with availability columns, keys of the two dictionaries in another order
+  or different, labels 10/20/30, planted in contexts, through `BIOGEME(...)`, `get_value_c`, `get_value_and_derivatives`,
+  `Database.values_from_database` and the function of `create_function`; a NaN / string cell (`Database(...)`, `BIOGEME(...)`
+  after an edit in place); the missing-data code.  Model `Audit.logitDataFaults` (the audit's `argwhere(...).any()` test and the
+  lookup of the chosen alternative among the availabilities), `Audit.getValueRefuses` for `LogLogit.get_value`.
+* session stream (round 3): histories on ONE formula object and ONE Database object - evaluations through five entry points
+  interleaved with edits (a choice set in place, `scale_column`, `database.panel()`, another member of the catalog selected,
+  columns dropped / added); every evaluation must be judged like a first evaluation of the current formula on the current
+  data.  The engine really runs where the property says the specification is valid, and is intercepted elsewhere.  Model
+  `Audit.run` (state machine over `SOp`), theorems `C12.reevaluation_like_first / reevaluation_refused / reevaluation_accepted /
+  edited_choice_refused`.
+* nests: `Audit.nestAudit` (constructor + all ordered pairs of different nests) against `NestsForNestedLogit` /
+  `models.lognested`; the same groups as cross-nested nests (`NestsForCrossNestedLogit`, `check_validity`, `models.logcnl`).
 """
 
 from __future__ import annotations
@@ -50,28 +65,47 @@ MANIFEST = dict(
     'id assignment wherever the elements sit, whatever else bears the name, on every entry path, audit skipped or not (C12.duplicate_name_refused, '
     'name_of_column_refused, absent_column_refused_at_ids, ids_sound, staged_reports_stage_faults); non-numeric, NaN or empty data held at the time '
     'of the call is refused by Database(...) and BIOGEME(...), valid data never (C12.data_fault_refused, data_valid_accepted). '
+    'Round 3: a choice that is no alternative is refused whichever ROW holds it, with or without availability conditions, wherever the logit sits '
+    '(C12.choice_row_refused, choice_row_refused_anywhere, choice_rows_sound; dedicated_test_misses_first_row shows that the audit\'s own '
+    'argwhere(...).any() test is blind to row 0 and the refusal rests on the availability lookup); LogLogit.get_value refuses such a choice '
+    '(get_value_choice_refused); nests sharing an alternative are refused wherever they sit in the tuple, alternatives outside the choice set too, '
+    'disjoint nests never (C12.nests_refused, nests_sound); histories on the same objects: an evaluation leaves nothing behind and every later '
+    'evaluation is judged like a first evaluation of the current formula on the current data (C12.evaluations_leave_no_trace, '
+    'reevaluation_like_first, reevaluation_refused, reevaluation_accepted, edited_choice_refused - induction over List SOp). '
     'Tie: translator + exhaustive (class, slot) fault planting on both entry paths with the engine call intercepted; a names stream over nine entry '
-    'paths; a data life-cycle stream (operation sequences, then a data fault, then the data is supplied again); nest/flag/missing-data '
-    'clauses are checked as relations on real runs.',
+    'paths; a data life-cycle stream (operation sequences, then a data fault, then the data is supplied again); a rows stream (fault in every row '
+    'position x frame size x availability mode x model function x entry point); a session stream (evaluation/edit histories on one formula and one '
+    'Database object, five entry points, engine really run on valid states); nests tied to Audit.nestAudit; flag/missing-data clauses are checked as '
+    'relations on real runs (the missing-data code now also by row position).',
     design='DESIGN.md §5 C12',
     technique='Lean 4 theorems over a structural audit model + generated operator table (decide) + exhaustive fault-planting correspondence',
-    note='Partial: nest audits, derivative-flag check and the missing-data clause are validated on real runs (oracle), not proved; the data audit is '
+    note='Partial: the derivative-flag check and the missing-data clause at engine level are validated on real runs (oracle + engine model), not proved of '
+    'the C++ engine; the session model has no memo by construction - that the code has none is what the session stream checks; the data audit is '
     'modelled on what the audit can see of a frame (numeric dtype, a null entry, number of rows); NaN / non-numeric data is judged where data is '
     'supplied (Database(...), BIOGEME(...)), not at formula-level evaluation of a Database edited after its construction; '
-    'known finding F-C12-empty: a Database emptied after its construction kills the interpreter in BIOGEME(...) (model = repaired behaviour); '
+    'finding F-C12-empty (fixed in /repo); known finding F-C12-stale-ids: after an evaluation refused for an absent column the formula object keeps '
+    'the half-assigned id manager and every later evaluation with prepare_ids=True is refused although the column is there now (model = repaired '
+    'behaviour, proposed_fixes/F-C12-stale-ids.diff); LogLogit.get_value with DIFFERENT keys for utilities and availabilities raises KeyError (not an '
+    'observation point of the property: not judged); '
     'after one engine exception the external engine keeps rethrowing it in the same process (known finding F-E2, engine outside /repo): '
     'missing-data cases run in fresh processes.',
 )
 TRUSTED = ['probe recipes of the translator (how each class is instantiated with given children)',
            'message keywords used to recognise which fault an error message names',
-           'the abstract frame of a data life-cycle case (tracked by construction, cross-checked against the frame read with pandas)']
+           'the abstract frame of a data life-cycle case (tracked by construction, cross-checked against the frame read with pandas)',
+           'the small AST of the rows / session streams: real formula (models.* functions, catalogs) and abstract dag are built side by side from it',
+           'the history shape under which the listed finding F-C12-stale-ids can show (stale_ids_pattern, computed from the operations alone)']
 ASSUMPTIONS = []
 RULE = ('fault elements (unknown column, draws/rv/panel variable outside their operator, logit key mismatch, MonteCarlo without draws / nested, '
         'Integrate without rv, trajectory on flat data, valid fillers) x every (expression class, child slot) context, nested to depth 1-3, x both '
         'entry paths; non-trivial = context depth >= 1 (the fault is not the root).  Names stream: 1-4 elementary expressions (free / fixed '
         'parameter, draws, integration variable, variable) with coinciding or distinct names, present or absent columns, in hole / side term / '
         'second formula x contexts of depth 0-3 x 9 entry paths; non-trivial = depth >= 1 or >= 2 elements.  Data life cycle: 0-4 preparation '
-        'steps x 9 data faults or none x 2 neutral rebindings x 6 entry points; all non-trivial')
+        'steps x 9 data faults or none x 2 neutral rebindings x 6 entry points; all non-trivial.  Rows: 10 row-position sets over frames of 1/2/5 rows '
+        'x 4 invalid choice values x availabilities none/ones/columns/other keys x loglogit/logit/lognested x labels 1-3 / 10-30 x 0-2 contexts x 5 entry '
+        'points; NaN / string cells by position x 2 columns x 2 entry points; missing-data code by row position.  Sessions: 5 formula shapes (logit, '
+        'MonteCarlo, MonteCarlo over a catalog, catalog of plain terms, MonteCarlo over a trajectory) x histories of 1-4 rounds of 1-2 edits and 1-2 '
+        'evaluations (5 entry points); all non-trivial')
 
 GEN = core.LEAN / 'Generated' / 'Operators.lean'
 
@@ -1247,6 +1281,767 @@ def life_check(ctx, res, rng):
         judge_life(ctx, res, c, r)
 
 
+# ----------------------------------------------------------------------------- round 3: formulas from a small AST (real
+# object and abstract dag side by side; the abstract dag is rebuilt for every selection of the catalog)
+
+SESSION_COLS = ['ID', 'x', 'y', 'z', 'choice']
+
+
+def ast_logit(builder, alts, av, av_order=1):
+    return ['logit', builder, list(alts), av, av_order]
+
+
+def logit_av_keys(alts, av, av_order=1):
+    if av == 'mismatch':
+        return list(alts[:-1]) + [alts[-1] + 5]
+    return list(alts)[::av_order]
+
+
+def ast_real(a):
+    """the real expression of an AST"""
+    import biogeme.expressions as ex
+    from biogeme.expressions import Beta, Variable, Numeric, bioDraws, MonteCarlo, PanelLikelihoodTrajectory
+    from biogeme.catalog import Catalog
+    import biogeme.models as models
+
+    k = a[0]
+    if k == 'beta':
+        return Beta(a[1], 0.5, None, None, 0)
+    if k == 'var':
+        return Variable(a[1])
+    if k == 'draws':
+        return bioDraws(a[1], 'NORMAL')
+    if k == 'num':
+        return Numeric(a[1])
+    if k == 'plus':
+        return ast_real(a[1]) + ast_real(a[2])
+    if k == 'times':
+        return ast_real(a[1]) * ast_real(a[2])
+    if k == 'exp':
+        return ex.exp(ast_real(a[1]))
+    if k == 'log':
+        return ex.log(ast_real(a[1]))
+    if k == 'mc':
+        return MonteCarlo(ast_real(a[1]))
+    if k == 'traj':
+        return PanelLikelihoodTrajectory(ast_real(a[1]))
+    if k == 'catalog':
+        return Catalog.from_dict(a[1], {f'm{i}': ast_real(m) for i, m in enumerate(a[2])})
+    if k == 'ctx':
+        kind, n, build, types = recipes()[a[1]]
+        ch = []
+        for j in range(n):
+            if j == a[2]:
+                ch.append(ast_real(a[3]))
+            elif types[j] == 'beta':
+                ch.append(Beta(f'b{j}', 1.0, None, None, 0))
+            elif types[j] == 'one':
+                ch.append(Numeric(1))
+            else:
+                ch.append(Variable('x'))
+        return build(ch)
+    if k == 'logit':
+        _, builder, alts, av, av_order = a
+        V = {i: Beta(f'u{i}', 0.25, None, None, 0) * Variable('x') for i in alts}
+        keys = logit_av_keys(alts, av, av_order)
+        if av == 'none':
+            avd = None
+        elif av == 'cols':
+            avd = {i: Variable(f'av_{i}') for i in keys}
+        else:
+            avd = {i: 1 for i in keys}
+        choice = Variable('choice')
+        if builder == 'loglogit':
+            return models.loglogit(V, avd, choice)
+        if builder == 'logit':
+            return models.logit(V, avd, choice)
+        if builder == 'lognested':
+            from biogeme.nests import OneNestForNestedLogit, NestsForNestedLogit
+
+            nests = NestsForNestedLogit(choice_set=list(alts), tuple_of_nests=(
+                OneNestForNestedLogit(nest_param=Beta('mu', 1.5, 1.0, None, 0), list_of_alternatives=list(alts[:2]), name='n0'),))
+            return models.lognested(V, avd, nests, choice)
+        raise ValueError(builder)
+    raise ValueError(k)
+
+
+def ast_abstract(a, dag, sel):
+    """index of the node of the AST in the abstract dag (catalogs: the member selected is the only child)"""
+    k = a[0]
+    if k in ('beta', 'var', 'draws'):
+        return dag.add(k, name=a[1])
+    if k == 'num':
+        return dag.add('leaf')
+    if k in ('plus', 'times'):
+        return dag.add('op', [ast_abstract(a[1], dag, sel), ast_abstract(a[2], dag, sel)])
+    if k in ('exp', 'log'):
+        return dag.add('op', [ast_abstract(a[1], dag, sel)])
+    if k == 'mc':
+        return dag.add('monteCarlo', [ast_abstract(a[1], dag, sel)])
+    if k == 'traj':
+        return dag.add('panelTraj', [ast_abstract(a[1], dag, sel)])
+    if k == 'catalog':
+        return dag.add('catalog', [ast_abstract(a[2][sel], dag, sel)])
+    if k == 'ctx':
+        kind, n, build, types = recipes()[a[1]]
+        ids = []
+        for j in range(n):
+            if j == a[2]:
+                ids.append(ast_abstract(a[3], dag, sel))
+            elif types[j] == 'beta':
+                ids.append(dag.add('beta', name=f'b{j}'))
+            elif types[j] == 'one':
+                ids.append(dag.add('leaf'))
+            else:
+                ids.append(dag.add('var', name='x'))
+        if kind == 'catalog':
+            ids = [ids[0]]
+        return dag.add(kind, ids)
+    if k == 'logit':
+        _, builder, alts, av, av_order = a
+        ch = [dag.add('var', name='choice')]
+        for pos, i in enumerate(alts):
+            u = dag.add('op', [dag.add('beta', name=f'u{i}'), dag.add('var', name='x')])
+            if builder == 'lognested' and pos < 2:
+                u = dag.add('op', [u, dag.add('beta', name='mu')])
+            ch.append(u)
+        for i in logit_av_keys(alts, av, av_order):
+            ch.append(dag.add('var', name=f'av_{i}') if av == 'cols' else dag.add('leaf'))
+        top = dag.add('logLogit', ch)
+        return dag.add('op', [top]) if builder == 'logit' else top
+    raise ValueError(k)
+
+
+def ast_catalog_size(a):
+    if not isinstance(a, list):
+        return None
+    if a[0] == 'catalog':
+        return len(a[2])
+    for c in a[1:]:
+        r = ast_catalog_size(c)
+        if r:
+            return r
+    return None
+
+
+def ast_find_logit(a):
+    if not isinstance(a, list):
+        return None
+    if a[0] == 'logit':
+        return a
+    for c in a[1:]:
+        r = ast_find_logit(c)
+        if r:
+            return r
+    return None
+
+
+def ast_configs(a):
+    out = []
+    for sel in range(ast_catalog_size(a) or 1):
+        d = Dag()
+        root = ast_abstract(a, d, sel)
+        out.append({'dag': d.nodes, 'root': root})
+    return out
+
+
+def session_frame(n, alts, choices, unavail=()):
+    import pandas as pd
+
+    cols = {'ID': [i // 2 + 1 for i in range(n)], 'x': [0.5 * (i + 1) for i in range(n)], 'y': [1.0 + i for i in range(n)],
+            'z': [0.25] * n, 'choice': list(choices)}
+    for a in alts:
+        cols[f'av_{a}'] = [0 if (r in unavail and choices[r] == a) else 1 for r in range(n)]
+    return pd.DataFrame(cols)
+
+
+def valid_choices(n, alts, shift=0):
+    return [alts[(i + shift) % len(alts)] for i in range(n)]
+
+
+STALE_WHERE = 'session: ids left behind by a refused evaluation'
+
+
+def ast_variables(t):
+    """names of the data variables of a (selected) AST, fillers of planted contexts included"""
+    if not isinstance(t, list):
+        return set()
+    if t[0] == 'var':
+        return {t[1]}
+    if t[0] == 'logit':
+        return {'x', 'choice'} | ({f'av_{i}' for i in logit_av_keys(t[2], t[3])} if t[3] == 'cols' else set())
+    if t[0] == 'ctx':
+        kind, n, build, types = recipes()[t[1]]
+        return ast_variables(t[3]) | ({'x'} if any(ty not in ('beta', 'one') for j, ty in enumerate(types) if j != t[2]) else set())
+    out = set()
+    for c in t[1:]:
+        out |= ast_variables(c)
+    return out
+
+
+def stale_ids_pattern(case, k):
+    """shape of the history of the listed finding F-C12-stale-ids, from the operations alone: evaluation #k is an
+    evaluation with prepare_ids=True of a specification that is valid now, while the formula still holds the id manager
+    of an earlier evaluation that was refused (ids assigned for data in which a variable of the formula was no column)"""
+    st = SessionState(case)
+    mgr = None          # the columns known to the id manager the formula holds
+    idx = 0
+    for op in case['ops']:
+        if op['o'] != 'eval':
+            st.edit(op)
+            continue
+        e = op['entry']
+        vs = ast_variables(st.selected())
+        hit = False
+        if e in ('gvc', 'gvd', 'vfd'):
+            keep, new = mgr, set(st.cols)
+            if any(v not in new for v in vs) or st.must_refuse(e):
+                mgr = new           # refused: the manager prepared for this evaluation stays on the formula
+            else:
+                hit = keep is not None and any(v not in keep for v in vs)
+                mgr = keep          # accepted: the previous manager is put back
+        elif e == 'bio':
+            if not st.must_refuse('bio'):
+                mgr = set(st.cols)
+        elif e in ('fn', 'objf') and mgr is None:
+            mgr = set(st.cols)
+        if idx == k:
+            return hit
+        idx += 1
+    return False
+
+
+class SessionRun:
+    """one formula object and one Database object; evaluations through the public entry points.  The engine call on
+    the formula is intercepted when `stub` is set (a formula that gets that far has been accepted)"""
+
+    def __init__(self, ast, frame):
+        import biogeme.database as dbm
+
+        self.ast = ast
+        self.obj = ast_real(ast)
+        self.db = dbm.Database('session', frame)
+        self.fn = None
+        self.objf = None
+        self.n_objf = 0
+
+    def evaluate(self, entry, stub):
+        import biogeme.biogeme as bio
+        import biogeme.expressions.base_expressions as be
+
+        obj, db = self.obj, self.db
+        orig = be.calculate_function_and_derivatives
+
+        def patched(*a, **k):
+            target = k.get('the_expression', a[0] if a else None)
+            if target is obj:
+                raise ReachedEngine()
+            return orig(*a, **k)
+
+        if stub:
+            be.calculate_function_and_derivatives = patched
+        try:
+            try:
+                if entry == 'gvc':
+                    obj.get_value_c(database=db, prepare_ids=True, number_of_draws=3)
+                elif entry == 'gvd':
+                    obj.get_value_and_derivatives(database=db, gradient=False, hessian=False, bhhh=False, aggregation=True, prepare_ids=True, number_of_draws=3)
+                elif entry == 'vfd':
+                    db.values_from_database(obj)
+                elif entry == 'fn':
+                    if self.fn is None:
+                        self.fn = obj.create_function(database=db, number_of_draws=3, gradient=False, hessian=False, bhhh=False)
+                    self.fn(np.array(list(obj.id_manager.free_betas_values), dtype=float))
+                elif entry == 'objf':
+                    # the objective function handed to the optimisation algorithms; it keeps the values it has computed per
+                    # point (package biogeme_optimization), so every call is made at a new point
+                    if self.objf is None:
+                        self.objf = obj.create_objective_function(database=db, number_of_draws=3, gradient=True, hessian=False, bhhh=False)
+                    self.n_objf += 1
+                    self.objf.set_variables(np.array([0.5 + 0.01 * self.n_objf] * len(obj.id_manager.free_betas_values), dtype=float))
+                    self.objf.f()
+                elif entry == 'bio':
+                    bio.BIOGEME(db, obj)
+                else:
+                    raise ValueError(entry)
+                return ['ok', '']
+            except ReachedEngine:
+                return ['ok', '']
+            except Exception as e:  # noqa: BLE001
+                return [core.exc_kind(e), f'{e}'[:500]]
+        finally:
+            be.calculate_function_and_derivatives = orig
+
+    def edit(self, op):
+        db = self.db
+        o = op['o']
+        if o == 'setChoice':
+            db.data.loc[db.data.index[op['row']], 'choice'] = op['v']
+        elif o == 'scaleChoice':
+            db.scale_column('choice', op['k'])
+        elif o == 'declarePanel':
+            db.panel('ID')
+        elif o == 'select':
+            self.obj.select_expression('spec', op['i'])
+        elif o == 'dropColumn':
+            db.data.drop(columns=[op['name']], inplace=True, errors='ignore')
+        elif o == 'addColumn':
+            db.data[op['name']] = [1.0] * len(db.data)
+        else:
+            raise ValueError(o)
+
+
+class SessionState:
+    """the state of a session tracked from the operations alone (for the oracle written from the property)"""
+
+    def __init__(self, case):
+        self.ast = case['ast']
+        self.cols = list(SESSION_COLS) + [f'av_{a}' for a in case.get('alts', [])]
+        self.panel = False
+        self.sel = 0
+        self.choices = list(case['choices'])
+        self.unavail = bool(case.get('unavail'))
+
+    def edit(self, op):
+        o = op['o']
+        if o == 'setChoice':
+            self.choices[op['row']] = op['v']
+        elif o == 'scaleChoice':
+            self.choices = [c * op['k'] for c in self.choices]
+        elif o == 'declarePanel':
+            self.panel = True
+        elif o == 'select':
+            if op['i'] < (ast_catalog_size(self.ast) or 1):
+                self.sel = op['i']
+        elif o == 'dropColumn':
+            self.cols = [c for c in self.cols if c != op['name']]
+        elif o == 'addColumn':
+            if op['name'] not in self.cols:
+                self.cols.append(op['name'])
+
+    def selected(self, a=None):
+        """the AST with every catalog replaced by its selected member"""
+        a = self.ast if a is None else a
+        if not isinstance(a, list):
+            return a
+        if a[0] == 'catalog':
+            return self.selected(a[2][self.sel])
+        return [a[0]] + [self.selected(c) for c in a[1:]]
+
+    def must_refuse(self, entry):
+        """from the property statement: True (must be refused), False (must be accepted), None (not decided here)"""
+        a = self.selected()
+
+        def walk(t, inside_mc=False, inside_traj=False):
+            # -> (faulty, variables outside the trajectory operator)
+            if not isinstance(t, list):
+                return False, False
+            k = t[0]
+            if k == 'var':
+                return t[1] not in self.cols, not inside_traj
+            if k == 'draws':
+                return not inside_mc, False
+            if k == 'logit':
+                _, builder, alts, av, _o = t
+                bad = any(c not in alts for c in self.choices) or av == 'mismatch'
+                needed = ['x', 'choice'] + ([f'av_{i}' for i in logit_av_keys(alts, av)] if av == 'cols' else [])
+                return bad or any(c not in self.cols for c in needed), not inside_traj
+            if k == 'mc':
+                has_draws = 'draws' in json.dumps(t[1])
+                has_traj = '"traj"' in json.dumps(t[1])
+                f, v = walk(t[1], True, inside_traj)
+                return f or not has_draws or inside_mc or (self.panel and not has_traj), v
+            if k == 'traj':
+                f, v = walk(t[1], inside_mc, True)
+                return f or not self.panel, v
+            if k == 'ctx':
+                f, v = walk(t[3], inside_mc, inside_traj)
+                kind, n, build, types = recipes()[t[1]]
+                filler_var = any(ty not in ('beta', 'one') for j, ty in enumerate(types) if j != t[2])    # fillers are Variable('x')
+                return f or (filler_var and 'x' not in self.cols), v or (not inside_traj and filler_var)
+            f = v = False
+            for c in t[1:]:
+                f1, v1 = walk(c, inside_mc, inside_traj)
+                f, v = f or f1, v or v1
+            return f, v
+
+        faulty, var_outside = walk(a)
+        if faulty:
+            return True
+        if self.panel and var_outside:
+            return True if entry == 'bio' else None     # the BIOGEME path checks the placement of variables on panel data
+        return False
+
+
+def session_worker(payload):
+    import warnings
+    import logging
+
+    warnings.simplefilter('ignore')
+    logging.disable(logging.CRITICAL)
+    out = []
+    for case in payload['items']:
+        r = {'obs': []}
+        stop = False
+        with core.scratch('[MonteCarlo]\nnumber_of_draws = 3\n'):
+            try:
+                run = SessionRun(case['ast'], session_frame(len(case['choices']), case.get('alts', []), case['choices'], case.get('unavail', ())))
+                st = SessionState(case)
+            except Exception as e:  # noqa: BLE001
+                out.append({'unbuildable': f'{type(e).__name__}: {e}'[:300]})
+                _progress(payload, out[-1])
+                continue
+            for op in case['ops']:
+                if op['o'] == 'eval':
+                    must = st.must_refuse(op['entry'])
+                    # the engine really runs only where the property says the specification is valid (flat data)
+                    # (not under a planted context: its fillers need not make numerical sense)
+                    stub = not (must is False and not st.panel and not st.unavail and '"ctx"' not in json.dumps(case['ast']))
+                    obs = run.evaluate(op['entry'], stub)
+                    r['obs'].append(obs + [stub])
+                    if obs[0].startswith('Other:'):
+                        stop = True  # possibly an engine exception: the process may be poisoned
+                        break
+                else:
+                    try:
+                        run.edit(op)
+                        st.edit(op)
+                    except Exception as e:  # noqa: BLE001
+                        r['edit_failed'] = f'{op}: {type(e).__name__}: {e}'[:300]
+                        break
+        out.append(r)
+        _progress(payload, r)
+        if stop:
+            break
+    return {'results': out}
+
+
+def session_model_ops(ops):
+    out = []
+    for op in ops:
+        if op['o'] == 'eval':
+            out.append({'o': 'evalBio', 'skip': False} if op['entry'] == 'bio' else {'o': 'evalExpr'})
+        else:
+            out.append(op)
+    return out
+
+
+def judge_session(ctx, res, case, r, stream='session'):
+    base = {'stream': stream, 'ast': case['ast'], 'alts': case.get('alts', []), 'choices': case['choices'], 'unavail': list(case.get('unavail', ())),
+            'ops': case['ops']}
+    if 'worker_error' in r:
+        res.notes.append(f'{stream} stream: worker error on {json.dumps(base)[:300]}: {r["worker_error"][:200]}')
+        res.tally(f'{stream}:worker_error')
+        return
+    if 'unbuildable' in r:
+        res.notes.append(f'{stream} stream: unbuildable {json.dumps(base)[:300]}: {r["unbuildable"]}')
+        res.tally(f'{stream}:unbuildable')
+        return
+    if 'edit_failed' in r:
+        res.notes.append(f'{stream} stream: an edit failed: {r["edit_failed"]}')
+        res.tally(f'{stream}:edit_failed')
+    res.count(base, nontrivial=True)
+    res.tally(f'{stream}:{case.get("shape", "?")}')
+    st = SessionState(case)
+    evals = []      # (index of the evaluation, op, oracle)
+    for op in case['ops']:
+        if op['o'] == 'eval':
+            evals.append((op, st.must_refuse(op['entry']), len([e for e in evals])))
+        else:
+            st.edit(op)
+    n_eval_seen = len(r['obs'])
+    for (op, must, k) in evals[:n_eval_seen]:
+        kind, msg, stub = r['obs'][k]
+        where = STALE_WHERE if (must is False and stale_ids_pattern(case, k)) else f'{stream}:{op["entry"]}'
+        c = dict(base, evaluation=k)
+        res.tally(f'{stream}:eval#{min(k, 3)}{"+" if k >= 3 else ""}:{op["entry"]}:{"faulty" if must else "valid" if must is False else "undecided"}')
+        if must is True:
+            if kind == 'ok':
+                res.violate(f'{stream}: evaluation #{k + 1} ({op["entry"]}) on the same objects accepts a specification that is faulty now', c, [kind, msg], 'BiogemeError', where=where)
+            elif kind != 'BiogemeError':
+                res.violate(f'{stream}: evaluation #{k + 1} ({op["entry"]}) refuses a faulty specification with {kind} instead of the library error', c, [kind, msg], 'BiogemeError', where=where)
+        elif must is False and kind != 'ok':
+            res.violate(f'{stream}: evaluation #{k + 1} ({op["entry"]}) refuses a specification that is valid now', c, [kind, msg], 'accepted', where=where)
+    lg = ast_find_logit(case['ast'])
+    req = {'op': 'session', 'configs': ast_configs(case['ast']), 'sel': 0, 'cols': SESSION_COLS + [f'av_{a}' for a in case.get('alts', [])], 'panel': False,
+           'logit': ({'alts': lg[2], 'av': logit_av_keys(lg[2], lg[3], lg[4]), 'choices': case['choices']} if lg else None),
+           'ops': session_model_ops(case['ops'])}
+
+    def cb(ans, obs=r['obs'], base=base, evals=evals, case=case):
+        if 'error' in ans:
+            res.diverge(f'model: {ans["error"]}', base, ans, obs, where=stream)
+            return
+        for (op, must, k), faults in zip(evals[:len(obs)], ans['verdicts']):
+            kind, msg, stub = obs[k]
+            where = STALE_WHERE if (not faults and stale_ids_pattern(case, k)) else f'{stream}:{op["entry"]}'
+            c = dict(base, evaluation=k)
+            if faults and kind == 'ok':
+                res.diverge(f'{stream}: model reports {faults} at evaluation #{k + 1} ({op["entry"]}), library accepts', c, faults, obs[k], where=where)
+            elif not faults and kind != 'ok':
+                res.diverge(f'{stream}: model accepts at evaluation #{k + 1} ({op["entry"]}), library refuses', c, faults, obs[k], where=where)
+            elif faults and kind != 'BiogemeError':
+                res.diverge(f'{stream}: refused with {kind}, not the library error, at evaluation #{k + 1} ({op["entry"]})', c, faults, obs[k], where=where)
+            elif faults and not names_message_ok(faults, msg):
+                res.diverge(f'{stream}: the message names none of the faults {faults} at evaluation #{k + 1} ({op["entry"]})', c, faults, msg[:200], where=where)
+
+    ctx.batch.add(req, cb)
+
+
+EXPR_ENTRIES = ['gvc', 'gvd', 'vfd', 'fn', 'objf']
+
+
+def ev(entry):
+    return {'o': 'eval', 'entry': entry}
+
+
+# ----------------------------------------------------------------------------- round 3: the ROW that holds a data-dependent fault
+
+ROW_POSITIONS = {1: [[0]], 2: [[0], [1], [0, 1]], 5: [[0], [2], [4], [0, 4], [1, 3], [0, 1, 2, 3, 4]]}
+ROW_BAD_VALUES = [-1, 0, 99, 4]
+
+
+def rows_cases(ctx, rng):
+    ctxs_any = [list(c) for c in all_contexts() if slot_type(c) == 'any' and c[0] not in ('MonteCarlo', 'Integrate', 'PanelLikelihoodTrajectory', 'Catalog')
+                and not c[0].startswith('_bioLogLogit')]
+    cases = []
+    k = 0
+    for n, possets in ROW_POSITIONS.items():
+        for pos in possets:
+            for av in (('none', 'ones', 'cols', 'none') if not ctx.quick else ('none', 'ones' if k % 2 else 'cols', 'none')):
+                alts = [[1, 2, 3], [10, 20, 30]][k % 2]
+                builder = ['loglogit', 'logit', 'lognested', 'loglogit'][k % 4]
+                bad = ROW_BAD_VALUES[k % 4]
+                choices = valid_choices(n, alts, k)
+                for q in pos:
+                    choices[q] = bad
+                a = ast_logit(builder, alts, av, -1 if k % 3 == 0 else 1)
+                if k % 5 == 3:
+                    a = ['ctx'] + rng.choice(ctxs_any) + [a]
+                if k % 7 == 5:
+                    a = ['ctx'] + rng.choice(ctxs_any) + [a]
+                entries = ['bio'] + EXPR_ENTRIES if not ctx.quick else ['bio', EXPR_ENTRIES[k % 5]] + ([EXPR_ENTRIES[(k + 2) % 5]] if av == 'none' else [])
+                for e in entries:
+                    cases.append({'shape': f'bad@{"first" if pos == [0] else "last" if pos == [n - 1] else "several" if len(pos) > 1 else "middle"}/{n}:{av}', 'ast': a,
+                                  'alts': alts, 'choices': choices, 'ops': [ev(e)]})
+                k += 1
+    # valid data (all sizes), the chosen alternative unavailable in some row (a warning), keys of the two dictionaries different
+    for n in (1, 2, 5):
+        for av in ('none', 'ones', 'cols', 'mismatch'):
+            for builder in (('loglogit', 'logit', 'lognested') if not ctx.quick else (('loglogit', 'logit', 'lognested')[k % 3],)):
+                alts = [[1, 2, 3], [10, 20, 30]][k % 2]
+                a = ast_logit(builder, alts, av, -1 if k % 2 else 1)
+                if k % 3 == 0:
+                    a = ['ctx'] + rng.choice(ctxs_any) + [a]
+                for e in (['bio'] + EXPR_ENTRIES if not ctx.quick else ['bio', EXPR_ENTRIES[k % 5]]):
+                    cases.append({'shape': f'valid/{n}:{av}' if av != 'mismatch' else f'keys/{n}', 'ast': a, 'alts': alts, 'choices': valid_choices(n, alts, k), 'ops': [ev(e)]})
+                k += 1
+    for n, rows in ((1, [0]), (5, [0]), (5, [2]), (5, [4])):
+        alts = [10, 20, 30]
+        for e in ('bio', 'gvc'):
+            cases.append({'shape': 'chosen_unavailable', 'ast': ast_logit('loglogit', alts, 'cols'), 'alts': alts, 'choices': valid_choices(n, alts), 'unavail': rows, 'ops': [ev(e)]})
+    return cases
+
+
+def cells_check(ctx, res):
+    """NaN / a string in ONE cell, in every row position and frame size: refused by Database(...) and, entered in place
+    after the construction, by BIOGEME(...)"""
+    import pandas as pd
+    import biogeme.database as dbm
+    import biogeme.biogeme as bio
+
+    for n, possets in ROW_POSITIONS.items():
+        for pos in possets + [[]]:
+            for fault in ('nan', 'string'):
+                for col in ('x', 'y'):       # x is read by the formula, y is not
+                    for entry in ('db_new', 'bio_after_edit'):
+                        case = {'stream': 'cells', 'rows': n, 'pos': pos, 'fault': fault, 'col': col, 'entry': entry}
+                        res.count(case, nontrivial=True)
+                        res.tally(f'cells:{fault}:{"none" if not pos else "first" if pos == [0] else "last" if pos == [n - 1] else "several" if len(pos) > 1 else "middle"}/{n}')
+                        df = pd.DataFrame({'x': [1.0 + i for i in range(n)], 'y': [2.0 - i for i in range(n)]})
+                        with core.scratch(''):
+                            try:
+                                if entry == 'db_new':
+                                    if fault == 'string' and pos:
+                                        df[col] = df[col].astype(object)
+                                    for q in pos:
+                                        df.loc[q, col] = np.nan if fault == 'nan' else 'n/a'
+                                    dbm.Database('cells', df)
+                                else:
+                                    db = dbm.Database('cells', df)
+                                    if fault == 'string' and pos:
+                                        db.data[col] = db.data[col].astype(object)
+                                    for q in pos:
+                                        db.data.loc[q, col] = np.nan if fault == 'nan' else 'n/a'
+                                    bio.BIOGEME(db, life_formula_xy())
+                                got = 'ok'
+                            except Exception as e:  # noqa: BLE001
+                                got = core.exc_kind(e)
+                        exp = 'BiogemeError' if pos else 'ok'
+                        if got != exp:
+                            res.violate(f'data audit: {fault} in row(s) {pos} of {n} of column {col} gives {got} ({entry})', case, got, exp, where=f'cells:{entry}')
+                        numeric = not (fault == 'string' and pos)
+                        req = {'op': 'dataaudit', 'rows': n, 'cols': [{'name': c, 'numeric': numeric or c != col, 'hasNaN': bool(pos) and fault == 'nan' and c == col} for c in ('x', 'y')]}
+
+                        def cb(ans, got=got, case=case, entry=entry):
+                            faults = ans['new' if entry == 'db_new' else 'bio']
+                            if bool(faults) != (got != 'ok'):
+                                res.diverge(f'data audit by cell: model {faults}, library {got}', case, faults, got, where=f'cells:{entry}')
+
+                        ctx.batch.add(req, cb)
+
+
+def life_formula_xy():
+    from biogeme.expressions import Beta, Variable
+
+    return -((Beta('b', 0.5, None, None, 0) * Variable('x') - 1) ** 2)
+
+
+def getvalue_check(ctx, res, rng):
+    """LogLogit.get_value (evaluation in Python, no data): a chosen alternative that is no key of the utilities or of
+    the availabilities is refused with the library error; a valid one gives a number"""
+    from biogeme.expressions import Beta, Numeric
+    from biogeme.expressions.logit_expressions import _bioLogLogit, _bioLogLogitFullChoiceSet, LogLogit
+
+    for k in range(ctx.n(24, 120)):
+        alts = rng.choice([[1, 2, 3], [10, 20, 30], [2, 1], [5]])
+        avmode = rng.choice(['none', 'ones', 'reversed'])   # (keys of the two dictionaries equal: get_value has no audit of its own)
+        av = logit_av_keys(alts, avmode, -1 if avmode == 'reversed' else 1)
+        c = rng.choice(alts + av + [-1, 0, 99])
+        cls = rng.choice(['_bioLogLogit', 'LogLogit']) if avmode != 'none' else rng.choice(['_bioLogLogitFullChoiceSet', 'LogLogit'])
+        case = {'stream': 'getvalue', 'alts': alts, 'av': avmode, 'choice': c, 'cls': cls}
+        res.count(case, nontrivial=True)
+        res.tally(f'getvalue:{"valid" if c in alts and c in av else "invalid"}')
+        V = {i: Beta(f'u{i}', 0.25 * j, None, None, 0) for j, i in enumerate(alts)}
+        try:
+            if cls == '_bioLogLogitFullChoiceSet':
+                o = _bioLogLogitFullChoiceSet(V, Numeric(c))
+            else:
+                o = {'_bioLogLogit': _bioLogLogit, 'LogLogit': LogLogit}[cls](V, None if avmode == 'none' else {i: Numeric(1) for i in av}, Numeric(c))
+            v = float(o.get_value())
+            got = 'ok' if v == v else 'nan'
+        except Exception as e:  # noqa: BLE001
+            got = core.exc_kind(e)
+        exp = 'ok' if (c in alts and c in av) else 'BiogemeError'
+        if got != exp:
+            res.violate(f'LogLogit.get_value: choice {c} with utilities {alts}, availabilities {av} gives {got}', case, got, exp, where='LogLogit.get_value')
+        req = {'op': 'logitrows', 'alts': alts, 'av': av, 'choices': [c]}
+
+        def cb(ans, got=got, case=case):
+            if ans['getvalue'][0] != (got != 'ok'):
+                res.diverge('LogLogit.get_value: model vs library', case, ans['getvalue'], got, where='LogLogit.get_value')
+
+        ctx.batch.add(req, cb)
+
+
+# ----------------------------------------------------------------------------- round 3: histories on the same objects
+
+def gen_session(rng, ctxs_any):
+    shape = rng.choice(['logit', 'logit', 'logit', 'mc', 'mc_catalog', 'mc_catalog', 'catalog_plain', 'catalog_plain', 'mc_traj'])
+    n = 5
+    alts, choices = [], [1] * n
+    b_x = ['times', ['beta', 'b'], ['var', 'x']]
+    edits = []
+    if shape == 'logit':
+        alts = rng.choice([[1, 2], [1, 2, 3], [10, 20, 30]])
+        av = rng.choice(['none', 'none', 'ones', 'cols'])
+        a = ast_logit(rng.choice(['loglogit', 'logit', 'lognested'] if len(alts) > 2 else ['loglogit', 'logit']), alts, av, rng.choice([1, -1]))
+        choices = valid_choices(n, alts, rng.randint(0, 2))
+
+        def mk_edit():
+            t = rng.random()
+            if t < 0.45:
+                return {'o': 'setChoice', 'row': rng.choice([0, 0, 1, 2, 3, 4, 4]), 'v': rng.choice([-1, 0, 99, alts[-1] + 1])}
+            if t < 0.75:
+                return {'o': 'setChoice', 'row': rng.randint(0, 4), 'v': rng.choice(alts)}
+            if t < 0.9:
+                return {'o': 'scaleChoice', 'k': rng.choice([1, 2, 10])}
+            return rng.choice([{'o': 'dropColumn', 'name': 'z'}, {'o': 'addColumn', 'name': 'w'}, {'o': 'dropColumn', 'name': 'x'}, {'o': 'addColumn', 'name': 'x'}])
+    elif shape == 'mc':
+        a = ['mc', ['exp', ['plus', b_x, ['draws', 'xi']]]]
+
+        def mk_edit():
+            return rng.choice([{'o': 'declarePanel'}, {'o': 'dropColumn', 'name': 'x'}, {'o': 'addColumn', 'name': 'x'}, {'o': 'dropColumn', 'name': 'y'}])
+    elif shape == 'mc_catalog':
+        members = [['plus', b_x, ['draws', 'xi']], b_x, ['plus', ['times', ['beta', 'b'], ['var', 'w']], ['draws', 'xi']]]
+        rng.shuffle(members)
+        a = ['mc', ['exp', ['catalog', 'spec', members]]]
+
+        def mk_edit():
+            t = rng.random()
+            if t < 0.7:
+                return {'o': 'select', 'i': rng.randint(0, 2)}
+            return rng.choice([{'o': 'declarePanel'}, {'o': 'addColumn', 'name': 'w'}, {'o': 'dropColumn', 'name': 'w'}])
+    elif shape == 'catalog_plain':
+        members = [b_x, ['times', ['beta', 'b'], ['var', 'y']], ['times', ['beta', 'c'], ['exp', ['var', 'w']]]]
+        rng.shuffle(members)
+        a = ['plus', ['catalog', 'spec', members], ['beta', 'c']]
+
+        def mk_edit():
+            t = rng.random()
+            if t < 0.5:
+                return {'o': 'select', 'i': rng.randint(0, 2)}
+            return rng.choice([{'o': 'dropColumn', 'name': 'y'}, {'o': 'addColumn', 'name': 'y'}, {'o': 'addColumn', 'name': 'w'}, {'o': 'dropColumn', 'name': 'w'},
+                               {'o': 'dropColumn', 'name': 'x'}, {'o': 'declarePanel'}])
+    else:  # mc_traj: valid only once the data are declared panel
+        a = ['mc', ['traj', ['exp', ['plus', b_x, ['draws', 'xi']]]]]
+
+        def mk_edit():
+            return rng.choice([{'o': 'declarePanel'}, {'o': 'declarePanel'}, {'o': 'dropColumn', 'name': 'z'}])
+    if rng.random() < 0.4 and shape in ('logit', 'catalog_plain'):
+        a = ['ctx'] + rng.choice(ctxs_any) + [a]
+    ops = [ev(rng.choice(EXPR_ENTRIES + ['bio']))] if rng.random() < 0.85 else []
+    for _ in range(rng.randint(1, 4)):
+        for _ in range(rng.randint(1, 2)):
+            ops.append(mk_edit())
+        for _ in range(rng.choice([1, 1, 2])):
+            ops.append(ev(rng.choice(EXPR_ENTRIES + ['bio'])))
+    # the function of create_function keeps the ids assigned when it was created: it is used on histories that neither
+    # select another member nor change the columns; `values_from_database` / add_column give one value per row, not on panel data
+    col_or_sel = any(o['o'] in ('select', 'dropColumn', 'addColumn') for o in ops)
+    seen_panel = False
+    for o in ops:
+        seen_panel = seen_panel or o['o'] == 'declarePanel'
+        if o['o'] == 'eval' and o['entry'] in ('fn', 'objf') and (col_or_sel or any(p['o'] == 'declarePanel' for p in ops)):
+            o['entry'] = 'gvd'
+    if shape == 'logit':
+        ops = [o for o in ops if o['o'] != 'declarePanel']
+    return {'shape': shape, 'ast': a, 'alts': alts, 'choices': choices, 'ops': ops}
+
+
+SESSION_CORPUS = [
+    # evaluated, one choice edited in place to a value that is no alternative (first / last row), evaluated again
+    {'shape': 'corpus', 'ast': ast_logit('loglogit', [1, 2], 'none'), 'alts': [1, 2], 'choices': [1, 2, 1, 2, 2],
+     'ops': [ev('gvc'), {'o': 'setChoice', 'row': 3, 'v': 3}, ev('gvc'), ev('gvd'), {'o': 'setChoice', 'row': 3, 'v': 1}, ev('gvc')]},
+    {'shape': 'corpus', 'ast': ast_logit('loglogit', [10, 20, 30], 'none'), 'alts': [10, 20, 30], 'choices': [10, 20, 30, 10, 20],
+     'ops': [ev('fn'), {'o': 'setChoice', 'row': 0, 'v': 0}, ev('fn'), ev('bio'), ev('vfd')]},
+    {'shape': 'corpus', 'ast': ast_logit('logit', [1, 2], 'ones'), 'alts': [1, 2], 'choices': [1, 2, 1, 2, 2],
+     'ops': [ev('bio'), ev('gvd'), {'o': 'scaleChoice', 'k': 2}, ev('gvd'), ev('bio')]},
+    # a MonteCarlo formula without trajectory, then the data are declared panel
+    {'shape': 'corpus', 'ast': ['mc', ['exp', ['plus', ['times', ['beta', 'b'], ['var', 'x']], ['draws', 'xi']]]], 'choices': [1] * 5,
+     'ops': [ev('gvc'), {'o': 'declarePanel'}, ev('gvc'), ev('gvd'), ev('bio')]},
+    # another member of the catalog is selected
+    {'shape': 'corpus', 'ast': ['mc', ['exp', ['catalog', 'spec', [['plus', ['times', ['beta', 'b'], ['var', 'x']], ['draws', 'xi']], ['times', ['beta', 'b'], ['var', 'x']]]]]],
+     'choices': [1] * 5, 'ops': [ev('gvc'), {'o': 'select', 'i': 1}, ev('gvc'), ev('vfd'), {'o': 'select', 'i': 0}, ev('gvc')]},
+    # refused first, valid once the panel structure is declared
+    {'shape': 'corpus', 'ast': ['mc', ['traj', ['exp', ['plus', ['times', ['beta', 'b'], ['var', 'x']], ['draws', 'xi']]]]], 'choices': [1] * 5,
+     'ops': [ev('gvc'), {'o': 'declarePanel'}, ev('gvc'), ev('bio')]},
+    # a column disappears / comes back
+    {'shape': 'corpus', 'ast': ['plus', ['times', ['beta', 'b'], ['var', 'x']], ['var', 'y']], 'choices': [1] * 5,
+     'ops': [ev('gvd'), {'o': 'dropColumn', 'name': 'y'}, ev('gvd'), ev('bio'), {'o': 'addColumn', 'name': 'y'}, ev('gvc')]},
+]
+
+
+def session_check(ctx, res, rng):
+    ctxs_any = [list(c) for c in all_contexts() if slot_type(c) == 'any' and c[0] not in ('MonteCarlo', 'Integrate', 'PanelLikelihoodTrajectory', 'Catalog')
+                and not c[0].startswith('_bioLogLogit')]
+    rows = rows_cases(ctx, rng)
+    for c, r in zip(rows, run_plantings(rows, worker='session_worker', min_chunk=8)):
+        judge_session(ctx, res, c, r, stream='rows')
+    cases = [json.loads(json.dumps(c)) for c in SESSION_CORPUS] + [gen_session(rng, ctxs_any) for _ in range(ctx.n(56, 400))]
+    for c, r in zip(cases, run_plantings(cases, worker='session_worker', min_chunk=6)):
+        judge_session(ctx, res, c, r, stream='session')
+
+
 # ----------------------------------------------------------------------------- other clauses (relations on real runs)
 
 
@@ -1330,6 +2125,28 @@ def nests_check(ctx, res, rng):
         exp = 'ok' if name.startswith('valid') else 'refused'
         if got != exp:
             res.violate(f'nest audit: {name} nests give {got}', case, got, exp, where='nests.check_partition')
+
+        def cb(ans, got=got, case=case):
+            if (ans['verdict'] == 'accepted') != (got == 'ok'):
+                res.diverge('nest audit: model vs library', case, ans['verdict'], got, where='nests.check_partition')
+
+        ctx.batch.add({'op': 'nests', 'choice_set': (choice_set6 if '_r' in name else choice_set), 'nests': groups}, cb)
+        # the same groups as nests of a cross-nested logit: overlap is the point of the model, alternatives outside the
+        # choice set are refused by the constructor, with the library error
+        outside = any(a not in (choice_set6 if '_r' in name else choice_set) for g in groups for a in g)
+        ccase = {'cnl_nests': name, 'groups': groups}
+        res.count(ccase, nontrivial=True)
+        try:
+            cn = NestsForCrossNestedLogit(choice_set=(choice_set6 if '_r' in name else choice_set), tuple_of_nests=tuple(
+                OneNestForCrossNestedLogit(nest_param=mu, dict_of_alpha={a: 0.5 for a in g}, name=f'c{i}') for i, g in enumerate(groups)))
+            okv, msg = cn.check_validity()
+            models.logcnl({i: V[i] for i in (choice_set6 if '_r' in name else choice_set)}, None, cn, 1)
+            cgot = 'ok'
+        except Exception as e:  # noqa: BLE001
+            cgot = 'refused' if core.exc_kind(e) == 'BiogemeError' else core.exc_kind(e)
+        cexp = 'refused' if outside else 'ok'
+        if cgot != cexp:
+            res.violate(f'cross-nested nests: {name} gives {cgot}', ccase, cgot, cexp, where='nests.cross_nested')
         if exp == 'refused':
             # the model function must refuse too, with the library error
             try:
@@ -1418,10 +2235,22 @@ def missing_check(ctx, res):
                 if path == 'expr' and code != 99999:
                     continue  # the expression path uses the default code of the expression
                 jobs.append({'code': code, 'formula': name, 'path': path, 'case': case, 'reads': rd})
+    # the ROW that holds the code: first / middle / last / only row (the others hold ordinary values)
+    quick_rows = {(1, (0,)): ('expr',), (5, (0,)): ('bio', 'expr'), (5, (2,)): ('expr',), (5, (4,)): ('bio',), (5, ()): ('expr',)}
+    for n, pos in ([(n, list(p)) for n, p in quick_rows] if ctx.quick else [(n, p) for n, ps in ROW_POSITIONS.items() for p in ps + [[]]]):
+        for name in ('read_plain', 'unread_column', 'unread_elem_branch'):
+            if ctx.quick and name != 'read_plain' and not (name == 'unread_column' and (n, pos) == (5, [0])):
+                continue
+            case, rd = missing_cases(99999)[name]
+            case = json.loads(json.dumps(case))
+            case['rows'] = [[1.0 + i, (99999.0 if i in pos else 2.0), 1.0, 0.0, 1.0] for i in range(n)]
+            for path in (('bio', 'expr') if not ctx.quick else quick_rows[(n, tuple(pos))] if name == 'read_plain' else ('expr',)):
+                jobs.append({'code': 99999, 'formula': f'{name}@rows{pos}/{n}', 'path': path, 'case': case, 'reads': rd and bool(pos)})
     with ThreadPoolExecutor(max_workers=12) as ex:
         outs = list(ex.map(lambda j: core.run_isolated('props.c12', 'missing_worker', j), jobs))
     for j, out in zip(jobs, outs):
-        case = {'missing_code': j['code'], 'formula': j['formula'], 'path': j['path'], 'nodes': j['case']['nodes']}
+        case = {'missing_code': j['code'], 'formula': j['formula'], 'path': j['path'], 'nodes': j['case']['nodes'], 'rows': j['case']['rows']}
+        res.tally('missing:' + ('row-position' if '@rows' in j['formula'] else 'all-rows'))
         res.count(case, nontrivial=True)
         rd = j['reads']
         produced = 'ok' in out or 'ok_sum' in out
@@ -1486,7 +2315,8 @@ def poison_check(ctx, res):
 
 
 MATCHERS = {'after_engine_error': lambda case: 'sequence' in (case or {}),
-            'empty_data': lambda case: (case or {}).get('stream') == 'datalife' and str((case or {}).get('fault') or '').startswith('empty')}
+            'empty_data': lambda case: (case or {}).get('stream') == 'datalife' and str((case or {}).get('fault') or '').startswith('empty'),
+            'stale_ids': lambda case: (case or {}).get('stream') in ('session', 'rows') and 'evaluation' in case and stale_ids_pattern(case, case['evaluation'])}
 
 # ----------------------------------------------------------------------------- check
 
@@ -1531,17 +2361,38 @@ def check(ctx) -> Result:
     # integration variables (legitimately inside an enclosing MonteCarlo / Integrate) are outside the domain there
     DATA_OK = {'unknown_column', 'valid_var', 'valid_num', 'logit_keys'}
     items = [it for it in items if it[0] in DATA_OK or not any(slot_type(c) == 'one' for c in it[1])]
+    import time
+
+    t0 = time.time()
+    timing = {}
+
+    def lap(name):
+        nonlocal t0
+        timing[name] = round(time.time() - t0, 1)
+        t0 = time.time()
+
     results = run_plantings(items)
     for it, r in zip(items, results):
         judge_planting(ctx, res, it, r)
+    lap('planting')
     flags_check(ctx, res)
     data_check(ctx, res)
     nests_check(ctx, res, rng)
+    cells_check(ctx, res)
+    getvalue_check(ctx, res, rng)
+    lap('flags/data/nests/cells/getvalue')
     missing_check(ctx, res)
     poison_check(ctx, res)
+    lap('missing')
     names_check(ctx, res, rng, ctx.n(120, 1500))
+    lap('names')
     life_check(ctx, res, rng)
+    lap('datalife')
+    session_check(ctx, res, rng)
+    lap('rows+session')
     ctx.batch.flush()
+    lap('lean batch')
+    res.notes.append(f'wall seconds per stream: {timing}')
     return res
 
 
@@ -1566,6 +2417,22 @@ def search(ctx, res, broken):
             judge_life(ctx, r3, c, r)
         # the listed finding on empty data is no news
         r2.violations.extend(v for v in r3.violations if v.get('where') != EMPTY_WHERE)
+    if not r2.violations:
+        class Wide2:
+            quick = False
+            n = staticmethod(lambda q, t: t)
+        r4 = Result()
+        srng = core.rng_for('C12-search-session', ctx.seed)
+        ctxs_any = [list(c) for c in all_contexts() if slot_type(c) == 'any' and c[0] not in ('MonteCarlo', 'Integrate', 'PanelLikelihoodTrajectory', 'Catalog')
+                    and not c[0].startswith('_bioLogLogit')]
+        rows = rows_cases(Wide2, srng)
+        for c, r in zip(rows, run_plantings(rows, worker='session_worker', min_chunk=8)):
+            judge_session(ctx, r4, c, r, stream='rows')
+        cases = [gen_session(srng, ctxs_any) for _ in range(300)]
+        for c, r in zip(cases, run_plantings(cases, worker='session_worker', min_chunk=6)):
+            judge_session(ctx, r4, c, r, stream='session')
+        # the listed finding on ids left behind is no news
+        r2.violations.extend(v for v in r4.violations if v.get('where') != STALE_WHERE)
     ctx.batch.items.clear()
     res.violations.extend(r2.violations[:3])
 
@@ -1586,6 +2453,12 @@ def replay(ctx, obj):
     elif case.get('stream') == 'datalife':
         c = {k: case[k] for k in ('pre', 'fault', 'post', 'entry')}
         judge_life(ctx, r, c, run_plantings([c], worker='life_worker')[0])
+    elif case.get('stream') in ('session', 'rows'):
+        c = {k: case[k] for k in ('ast', 'alts', 'choices', 'unavail', 'ops')}
+        judge_session(ctx, r, c, run_plantings([c], worker='session_worker')[0], stream=case['stream'])
+    elif case.get('stream') == 'cells':
+        cells_check(ctx, r)
+        r.violations = [v for v in r.violations if all(v['case'].get(k) == case.get(k) for k in ('rows', 'pos', 'fault', 'col', 'entry'))]
     else:
         return {'property_fails': False, 'note': 'no concrete input in this replay file'}
     ctx.batch.items.clear()
